@@ -90,4 +90,29 @@ pub fn gen_c07(out: &mut dyn Write, thorough: bool, seed: u64) {
         }
         writeln!(out, "WF {mt} {} c07", len + 10).unwrap();
     }
+    // a model that is edited between two serialisations (its only mutator is `replace_dictionary`): longer, shorter, equal and empty
+    // dictionaries; read from a slice or from a reader; serialised before the edit or not.  `write`, `to_vec` and a second `to_vec`
+    // must agree with each other and with the model's encoding of the edited model
+    {
+        let opts = GenOpts { windows: &[1, 2, 3], max_ngrams: 3, max_words: 3, max_word_len: 4 };
+        for i in 0..(if thorough { 120 } else { 24 }) {
+            let (m, _alpha) = gen_model(&mut r, &opts);
+            let mut entries: Vec<(String, Vec<i32>, String)> = match i % 4 {
+                0 => m.dict.clone(),
+                1 => vec![],
+                2 => m.dict.iter().take(1).cloned().collect(),
+                _ => m.dict.clone(),
+            };
+            if i % 4 != 1 && i % 4 != 2 {
+                for k in 0..(1 + i % 3) {
+                    let w: String = format!("新{}語{}", k, "x".repeat(i % 5));
+                    let n = w.chars().count();
+                    entries.push((w, (0..=n as i32).collect(), if k == 0 { "a longer comment, \"quoted\"".into() } else { String::new() }));
+                }
+            }
+            let es: Vec<String> = entries.iter().map(|(w, ws, c)| format!("{}={}={}", crate::util::hexs(w), ws.iter().map(|x| x.to_string()).collect::<Vec<_>>().join(","), crate::util::hexs(c))).collect();
+            let flags = ["pre", "pre rd", "rd", "-"][(i / 4) % 4];
+            writeln!(out, "RD {} {} {} {flags} c07", m.to_text(), if es.is_empty() { "-".to_string() } else { es.join("/") }, crate::util::hexs("ab")).unwrap();
+        }
+    }
 }
